@@ -2,9 +2,15 @@
 From Coq Require Extraction.
 From Coq Require Import ExtrOcamlBasic.
 From SQ Require Import lib.Base.
-From SQ Require model.SlidingWindow.
+From SQ Require model.SlidingWindow model.IntervalSet model.AckRanges model.PnMap.
 Extraction Language OCaml.
 
 Definition sw_run := SlidingWindow.run.
 Definition sw_judge := SlidingWindow.judge.
-Extraction "../ocaml/gen/C16/model.ml" sw_run sw_judge.
+Definition iset_run := IntervalSet.run.
+Definition iset_judge := IntervalSet.judge.
+Definition ack_run := AckRanges.run.
+Definition ack_judge := AckRanges.judge.
+Definition pnmap_run := PnMap.run.
+Definition pnmap_judge := PnMap.judge.
+Extraction "../ocaml/gen/C16/model.ml" sw_run sw_judge iset_run iset_judge ack_run ack_judge pnmap_run pnmap_judge.
